@@ -5,3 +5,10 @@ package bigbuff
 // verifPoint is a no-op unless the package is built with the "verif" build tag (see verif_on.go);
 // the empty body is inlined away by the compiler.
 func verifPoint(string, any, int) {}
+
+func b2i(b bool) int {
+	if b {
+		return 1
+	}
+	return 0
+}
